@@ -162,7 +162,7 @@ def run(ctx: Ctx) -> None:
 
     def printed(d):
         Ip = e.interp(allow_fork=False)
-        outs = Ip.explore("pprint.PrettyPrinter._format", lambda: (models.printer(Ip, quote='"', indent=2, end_comment=False), [d], {"level": 0}))
+        outs = Ip.explore(models.fmt_qual(repo), lambda: (models.printer(Ip, quote='"', indent=2, end_comment=False), [d], models.fmt_level_kw(repo, 0)))
         if len(outs) != 1 or outs[0].kind != "return":
             return f"raises {outs[0].exc}"
         out_ = []
@@ -178,7 +178,7 @@ def run(ctx: Ctx) -> None:
     for commented in ({"p1"}, {"p2"}, {"n", "p3"}):
         for flags in ((False, True), (True, True)):
             got = printed(build_layer(runs[flags], commented))
-            ctx.check(got == plain_lines, "B6", f"comments on {sorted(commented)}, position={flags[0]} comments={flags[1]}", repo.loc("pprint", repo.func("pprint.PrettyPrinter._format")), f"{len(plain_lines)} lines", f"a LAYER (NAME, PROCESSING x3, GROUP) whose attributes {sorted(commented)} carry comments prints {got}, the plain LAYER prints {plain_lines}: keeping comments changes what is written")
+            ctx.check(got == plain_lines, "B6", f"comments on {sorted(commented)}, position={flags[0]} comments={flags[1]}", repo.loc("pprint", repo.func(models.fmt_qual(repo))), f"{len(plain_lines)} lines", f"a LAYER (NAME, PROCESSING x3, GROUP) whose attributes {sorted(commented)} carry comments prints {got}, the plain LAYER prints {plain_lines}: keeping comments changes what is written")
 
     # ---- B3 ------------------------------------------------------------------------------------------
     ctx.rule("B3", "CommentsTransformer callbacks return the main transformer's result with stores under __comments__ only", 4)
@@ -258,9 +258,9 @@ def run(ctx: Ctx) -> None:
             raise AnalysisError(f"_format not evaluable on the representative LAYER under {sname}")
         a, b = no_comment(plain[0][2]), no_comment(booked[0][2])
         diff = next(((x, y) for x, y in zip(a, b) if x != y), None)
-        ctx.check(a == b, "B5", f"representative LAYER with and without bookkeeping | {sname}", repo.loc("pprint", repo.func("pprint.PrettyPrinter._format")), f"{len(a)} lines", f"under {sname} the lines differ: plain {diff[0] if diff else a!r} vs with bookkeeping {diff[1] if diff else b!r}")
+        ctx.check(a == b, "B5", f"representative LAYER with and without bookkeeping | {sname}", repo.loc("pprint", repo.func(models.fmt_qual(repo))), f"{len(a)} lines", f"under {sname} the lines differ: plain {diff[0] if diff else a!r} vs with bookkeeping {diff[1] if diff else b!r}")
         leaked = sorted({x.name for x in layout.atoms_in(booked[0][2]) if x.name.startswith("HIDDEN")})
-        ctx.check(not leaked, "B5", f"__position__ data never printed | {sname}", repo.loc("pprint", repo.func("pprint.PrettyPrinter._format")), "", f"position data reaches the output: {leaked}")
+        ctx.check(not leaked, "B5", f"__position__ data never printed | {sname}", repo.loc("pprint", repo.func(models.fmt_qual(repo))), "", f"position data reaches the output: {leaked}")
 
 
 def a1_comment(d, word):
